@@ -28,12 +28,18 @@ PROBES = {
     "selectSavesPrev": (["cfg mode=select timeout=10", "start", "arrive 0", "arrive 1", "round", "cclose 0",
                          "tick 11000", "round"],
                         lambda l: " 1:%d:10000:x" % CLOCK0 in l),
+    # call_handlers only raises data_already_pending: an idle connection handled after one with pending work
+    # (slow handler left upload bytes in the buffer) does not clear it -- select loop, pending one is the older
+    "pendingAccumulates": (["cfg mode=select timeout=10", "start", "arrive 0", "arrive 1", "round", "slow 0", "sendn 0 4",
+                            "round"],
+                           lambda l: " hint=0 " in l and " fl=d " in l),
     # F11e: a connection stamped after a small backward clock jump goes to its sorted place, not to the head
     "actSortedInsert": (["cfg mode=select timeout=10", "start", "arrive 0", "arrive 1", "round", "tick 1000", "send 0",
                          "round", "tickback 300", "send 1", "round"],
                         lambda l: " N=[0,1] " in l),
 }
-FLAGS = ("optSortedInsert", "optWhileSuspended", "stampAtProcess", "hintCmpSafe", "selectSavesPrev", "actSortedInsert")
+FLAGS = ("optSortedInsert", "optWhileSuspended", "stampAtProcess", "hintCmpSafe", "selectSavesPrev", "actSortedInsert",
+         "pendingAccumulates")
 HARNESS_EXCLUDE = ("mhd_mono_clock.c", "daemon.c")     # daemon.c is #included by the harness (white-box `conv`)
 
 
@@ -122,7 +128,9 @@ def parse(line):
     cs = {}
     for w in g["cs"].split():
         a = w.split(":")
-        cs[int(a[0])] = {"la": int(a[1]), "tmo": int(a[2]), "s": "s" in a[3], "r": "r" in a[3], "x": "x" in a[3]}
+        mb = re.search(r"b(\d+)", a[3])
+        cs[int(a[0])] = {"la": int(a[1]), "tmo": int(a[2]), "s": "s" in a[3], "r": "r" in a[3], "x": "x" in a[3],
+                         "p": "p" in a[3], "b": int(mb.group(1)) if mb else 0}
     return {"ev": [e for e in g["ev"].split(",") if e], "hint": None if g["hint"] == "none" else int(g["hint"]),
             "now": int(g["now"]), "fl": g["fl"], "C": il(g["C"]), "N": il(g["N"]), "M": il(g["M"]), "S": il(g["S"]),
             "E": il(g["E"]), "cs": cs}
@@ -240,6 +248,12 @@ class Oracle:
                     del self.sent_at[c]; del self.elig[c]; del self.sent_rounds[c]
         # ---- the hint
         live = [c for c in cs if not cs[c]["s"] and cs[c]["tmo"] != 0]
+        # ---- work that no socket event will announce: unprocessed upload data in the buffer / PROCESS wait state
+        work = [c for c in cs if not cs[c]["s"] and not cs[c]["x"] and (cs[c]["p"] or cs[c]["b"] > 0)]
+        if work and p["hint"] != 0 and not err:
+            c = work[0]
+            err = "hint is %s although connection has work pending (%d unprocessed upload bytes in the read buffer%s)" % (
+                p["hint"], cs[c]["b"], ", PROCESS wait state" if cs[c]["p"] else "")
         pend = ("n" in p["fl"]) or ("r" in p["fl"]) or ("d" in p["fl"]) or ("c" in p["fl"])
         if self.mode == "epoll" and p["E"]:
             pend = True
@@ -281,6 +295,7 @@ def gen_history(rng, name):
     arrived = set()
     nops = rng.randint(6, 22)
     jump = rng.random() < 0.35
+    slowh = rng.random() < 0.35
     for c in range(rng.randint(1, n)):
         lines.append("arrive %d" % c); arrived.add(c)
     lines.append("round")
@@ -302,6 +317,11 @@ def gen_history(rng, name):
             continue
         if c not in arrived and r > 0.1:
             lines.append("arrive %d" % c); arrived.add(c)
+            if rng.random() < 0.7:
+                lines.append("round")
+            continue
+        if slowh and rng.random() < 0.12:
+            lines.append(rng.choice(["slow %d" % c, "sendn %d %d" % (c, rng.randint(2, 6)), "sendn %d %d" % (c, rng.randint(2, 4))]))
             if rng.random() < 0.7:
                 lines.append("round")
             continue
@@ -402,6 +422,32 @@ def gen_jumps(tier):
                         k += 1
 
 
+# work pending on one connection while the others are idle: a handler that takes one upload byte per call leaves
+# k-1 .. 1 bytes in the read buffer for k-1 rounds.  Every position of the pending connection among 2..3
+# connections (the select loop walks them oldest first, the flag must survive the idle ones handled later),
+# both loops, default timeout 10 s / none, the others idle / active / closing / timing out / on the manual list.
+PEND_MID = [[], ["tick 100"], ["send {o}", "round"], ["sendp {o}", "round"], ["cclose {o}", "round"], ["set-timeout {p} 7"],
+            ["set-timeout {o} 3"], ["tick 9999", "round"], ["send {p}"], ["sendn {p} 3"], ["susp {o}", "send {o}", "round"],
+            ["arrive 3"], ["tickback 300"]]
+
+
+def gen_pending():
+    k = 0
+    for mode in ("select", "epoll"):
+        for T in (10, 0):
+            for n in (2, 3):
+                for pnd in range(n):
+                    for nb in (2, 4):
+                        for mid in PEND_MID:
+                            o = (pnd + 1) % n
+                            lines = ["case p%d" % k, "cfg mode=%s timeout=%d" % (mode, T), "start"]
+                            lines += ["arrive %d" % c for c in range(n)] + ["round", "slow %d" % pnd, "sendn %d %d" % (pnd, nb), "round"]
+                            lines += [x.format(o=o, p=pnd) for x in mid]
+                            lines += ["round"] * nb + ["tick 5000", "round", "tick 5001", "round", "round"]
+                            k += 1
+                            yield lines
+
+
 # white-box conversion cases: the hint poked to boundary / random uint64 values in several daemon states
 CONV_VALUES = [0, 1, 99, 100, 101, 999, 1000, 1001, 2 ** 31 - 2, 2 ** 31 - 1, 2 ** 31, 2 ** 32 - 1, 2 ** 32,
                2 ** 63 - 2, 2 ** 63 - 1, 2 ** 63, 2 ** 63 + 1, 2 ** 64 - 2, 2 ** 64 - 1]
@@ -473,6 +519,7 @@ def signature(kind, det):
 def new_stats():
     return {k: 0 for k in ("ops", "to", "su", "cc", "co", "hint0", "hintnone", "hintpos", "badop", "tickback",
                            "rounds_back_1_5000", "rounds_back_gt5000", "tmo_close_while_back",
+                           "slow", "states_with_work_pending", "work_pending_and_others",
                            "conv", "conv_plain", "conv_clamped", "conv_none")}
 
 
@@ -572,6 +619,10 @@ class Spec:
                     for e in re.findall(r"ev=\[([^\]]*)\]", h)[0].split(","):
                         if e[:2] in ("to", "su", "cc", "co"):
                             stats[e[:2]] += 1
+                    if re.search(r":\d+:[srx]*p?b\d+|:\d+:[srx]*p", h):
+                        stats["states_with_work_pending"] += 1
+                        if len(re.findall(r" \d+:\d+:\d+:", h)) >= 2: stats["work_pending_and_others"] += 1
+                    if op.startswith("slow"): stats["slow"] += 1
                     if " hint=0 " in h: stats["hint0"] += 1
                     elif " hint=none " in h: stats["hintnone"] += 1
                     else: stats["hintpos"] += 1
@@ -629,7 +680,8 @@ class Spec:
         rnd = [gen_history(ctx.rng, "r%d" % i) for i in range(nrand)]
         jmp = list(gen_jumps(ctx.tier))
         cnv = list(gen_conv(ctx.rng, 400 if ctx.tier == "thorough" else 60))
-        allc = cases + jmp + cnv + exh + rnd
+        pnd = list(gen_pending())
+        allc = cases + pnd + jmp + cnv + exh + rnd
         B = 400
         for i in range(0, len(allc), B):
             self.run_batch(allc[i:i + B], failures, stats)
@@ -648,7 +700,7 @@ class Spec:
                        "four public wrappers and the two static get_timeout_millisec_* compared with the model and with "
                        "the arithmetic oracle" % (depth, len(ALPHA)),
                "jump_sizes_ms": JUMPS_T if ctx.tier == "thorough" else JUMPS_Q, "jump_pairs_ms": JPAIRS,
-               "jump_histories": len(jmp), "conv_scripts": len(cnv),
+               "jump_histories": len(jmp), "conv_scripts": len(cnv), "pending_work_histories": len(pnd),
                "conv_boundary_values": len(CONV_VALUES), "conv_caps": CONV_CAPS,
                "samples": [rnd[0], exh[len(exh) // 2]] if rnd else [],
                "exhaustive_histories": len(exh), "random_histories": len(rnd), "corpus": ncorp,
